@@ -27,7 +27,8 @@ Proof.
         -- injection H as <- <- <- <-. eapply RWhileBrk; eauto.
         -- destruct (exec_stmt n (SWhile c body orelse) s1 d2) as [[[tr2 o2] s2] d3] eqn:E2.
            injection H as <- <- <- <-. eapply RWhileIter; eauto. apply IHs; [exact E2 | split; assumption].
-        -- injection H as <- <- <- <-. eapply RWhileRet; eauto.
+        -- injection H as <- <- <- <-. eapply RWhileOut; eauto.
+        -- injection H as <- <- <- <-. eapply RWhileOut; eauto.
         -- destruct Nb; congruence.
         -- destruct Nb; congruence.
       * destruct (exec_block n orelse s d1) as [[[tro oo] so] do] eqn:Eo.
@@ -37,36 +38,64 @@ Proof.
     + injection H as <- <- <- <-; constructor.
     + (* STry *)
       destruct (exec_block n tb s d) as [[[tr1 ob] s1] d1] eqn:E1.
-      assert (D : ob = ONormal \/ ob <> ONormal) by (destruct ob; auto; right; discriminate).
-      destruct D as [-> | Nb].
-      * destruct (exec_block n te s1 d1) as [[[tr2 o2] s2] d2] eqn:E2.
-        destruct o2; try (injection H as _ <- _ _; congruence);
-          (destruct (exec_block n tf s2 d2) as [[[tr3 of] s3] d3] eqn:E3;
-           destruct of; try (injection H as _ <- _ _; congruence);
-           injection H as <- <- <- <-;
-           eapply RTryN; [apply IHb; [exact E1 | split; discriminate] | apply IHb; [exact E2 | split; discriminate]
-                         | apply IHb; [exact E3 | split; discriminate]]).
-      * assert (E2 : (let '(tr2, o2, s2, d2) := match ob with ONormal => exec_block n te s1 d1 | _ => ([], ob, s1, d1) end in
-                      match o2 with
-                      | OFuel | OStuck => (tr1 ++ tr2, o2, s2, d2)
-                      | _ => let '(tr3, of, s3, d3) := exec_block n tf s2 d2 in
-                             match of with
-                             | ONormal => (tr1 ++ tr2 ++ tr3, o2, s3, d3)
-                             | OFuel => (tr1 ++ tr2 ++ tr3, OFuel, s3, d3)
-                             | _ => (tr1 ++ tr2 ++ tr3, OStuck, s3, d3)
-                             end
-                      end) = (tr, o, s', d')) by exact H.
-        clear H. destruct ob; try congruence;
-          try (simpl in E2; injection E2 as _ <- _ _; congruence);
-          (simpl in E2; destruct (exec_block n tf s1 d1) as [[[tr3 of] s3] d3] eqn:E3;
-           destruct of; try (injection E2 as _ <- _ _; congruence);
-           injection E2 as <- <- <- <-;
-           eapply RTryJ; [apply IHb; [exact E1 | split; discriminate] | discriminate
-                         | apply IHb; [exact E3 | split; discriminate]]).
+      assert (Dn : forall (tr3 : list label) of (s3 : store) (d3 : decisions) x (y : list label) (z : store) (w : decisions),
+                 match of with
+                 | ONormal => (tr3, x, s3, d3)
+                 | OFuel => (tr3, OFuel, s3, d3)
+                 | _ => (tr3, OStuck, s3, d3)
+                 end = (y, o, z, w) -> of = ONormal).
+      { intros tr3 of s3 d3 x y z w E. destruct of; try reflexivity; injection E as _ <- _ _; congruence. }
+      destruct ob.
+      * (* normal *)
+        destruct (exec_block n te s1 d1) as [[[tr2 o2] s2] d2] eqn:E2.
+        assert (N2 : done o2) by (split; intros ->; injection H as _ <- _ _; congruence).
+        assert (H' : (let '(tr3, of, s3, d3) := exec_block n tf s2 d2 in
+                      match of with
+                      | ONormal => (tr1 ++ tr2 ++ tr3, o2, s3, d3)
+                      | OFuel => (tr1 ++ tr2 ++ tr3, OFuel, s3, d3)
+                      | _ => (tr1 ++ tr2 ++ tr3, OStuck, s3, d3)
+                      end) = (tr, o, s', d')) by (destruct N2; destruct o2; try exact H; congruence).
+        clear H. destruct (exec_block n tf s2 d2) as [[[tr3 of] s3] d3] eqn:E3.
+        pose proof (Dn _ _ _ _ _ _ _ _ H') as ->. injection H' as <- <- <- <-.
+        eapply RTryN; [apply IHb; [exact E1 | split; discriminate] | apply IHb; [exact E2 | exact N2]
+                      | apply IHb; [exact E3 | split; discriminate]].
+      * (* break *)
+        destruct (exec_block n tf s1 d1) as [[[tr3 of] s3] d3] eqn:E3.
+        pose proof (Dn _ _ _ _ _ _ _ _ H) as ->. injection H as <- <- <- <-.
+        eapply RTryJ; [apply IHb; [exact E1 | split; discriminate] | discriminate | discriminate
+                      | apply IHb; [exact E3 | split; discriminate]].
+      * destruct (exec_block n tf s1 d1) as [[[tr3 of] s3] d3] eqn:E3.
+        pose proof (Dn _ _ _ _ _ _ _ _ H) as ->. injection H as <- <- <- <-.
+        eapply RTryJ; [apply IHb; [exact E1 | split; discriminate] | discriminate | discriminate
+                      | apply IHb; [exact E3 | split; discriminate]].
+      * destruct (exec_block n tf s1 d1) as [[[tr3 of] s3] d3] eqn:E3.
+        pose proof (Dn _ _ _ _ _ _ _ _ H) as ->. injection H as <- <- <- <-.
+        eapply RTryJ; [apply IHb; [exact E1 | split; discriminate] | discriminate | discriminate
+                      | apply IHb; [exact E3 | split; discriminate]].
+      * (* raise *)
+        destruct (hsel th (dnat d1)) as [h|] eqn:Eh.
+        -- destruct (exec_block n h s1 (dtail d1)) as [[[tr2 o2] s2] d2] eqn:E2.
+           assert (N2 : done o2) by (split; intros ->; injection H as _ <- _ _; congruence).
+           assert (H' : (let '(tr3, of, s3, d3) := exec_block n tf s2 d2 in
+                      match of with
+                      | ONormal => (tr1 ++ tr2 ++ tr3, o2, s3, d3)
+                      | OFuel => (tr1 ++ tr2 ++ tr3, OFuel, s3, d3)
+                      | _ => (tr1 ++ tr2 ++ tr3, OStuck, s3, d3)
+                      end) = (tr, o, s', d')) by (destruct N2; destruct o2; try exact H; congruence).
+           clear H. destruct (exec_block n tf s2 d2) as [[[tr3 of] s3] d3] eqn:E3.
+           pose proof (Dn _ _ _ _ _ _ _ _ H') as ->. injection H' as <- <- <- <-.
+           eapply RTryH; [apply IHb; [exact E1 | split; discriminate] | exact Eh | apply IHb; [exact E2 | exact N2]
+                         | apply IHb; [exact E3 | split; discriminate]].
+        -- destruct (exec_block n tf s1 (dtail d1)) as [[[tr3 of] s3] d3] eqn:E3.
+           pose proof (Dn _ _ _ _ _ _ _ _ H) as ->. injection H as <- <- <- <-.
+           eapply RTryU; [apply IHb; [exact E1 | split; discriminate] | exact Eh
+                         | apply IHb; [exact E3 | split; discriminate]].
+      * injection H as _ <- _ _; congruence.
+      * injection H as _ <- _ _; congruence.
     + (* SWith *)
       destruct (exec_block n wb s d) as [[[trb ob] sb] db] eqn:Eb. injection H as <- <- <- <-.
       apply RWith. apply IHb; [exact Eb | split; assumption].
-    + injection H as _ <- _ _; congruence.
+    + injection H as <- <- <- <-; constructor.
   - destruct x as [|st r].
     + injection H as <- <- <- <-; constructor.
     + destruct (exec_stmt n st s d) as [[[tr1 o1] s1] d1] eqn:E1.
